@@ -42,6 +42,10 @@ pub struct Case {
     /// (victim link, its silence in ms, routing decisions taken meanwhile)
     #[serde(default)]
     pub pre_stall: Option<(u8, u16, u8)>,
+    /// packets already outstanding on each link when the history starts (registered through the production call):
+    /// with a window of 1000 and 1000 outstanding every quotient is 0
+    #[serde(default)]
+    pub pre_load: Vec<u16>,
 }
 
 fn adv() -> impl Strategy<Value = u32> {
@@ -70,7 +74,20 @@ pub fn strategy(max_ops: usize) -> impl Strategy<Value = Case> {
         7 => Just(None),
         3 => (any::<u8>(), prop_oneof![Just(250u16), Just(251), Just(300), 200u16..900], 1u8..6).prop_map(Some),
     ];
-    (vec(win, 1..=4), 0u8..TIMEOUTS.len() as u8, any::<bool>(), vec(op, 1..max_ops), pre).prop_map(|(windows, timeout, quality, ops, pre_stall)| Case { windows, timeout, quality, ops, pre_stall })
+    (vec(win, 1..=4), 0u8..TIMEOUTS.len() as u8, any::<bool>(), vec(op, 1..max_ops), pre, prop::option::weighted(0.15, vec(prop_oneof![Just(1000u16), Just(999), Just(1001), Just(2000), 0u16..1200], 4)))
+        .prop_map(|(mut windows, timeout, quality, ops, pre_stall, load)| {
+            let mut pre_load = Vec::new();
+            if let Some(l) = load
+                && pre_stall.is_none()
+            {
+                // small windows so that the load can use them up
+                for w in windows.iter_mut() {
+                    *w = [1000u16, 1000, 1999, 2000][*w as usize % 4];
+                }
+                pre_load = l[..windows.len()].to_vec();
+            }
+            Case { windows, timeout, quality, ops, pre_stall, pre_load }
+        })
 }
 
 fn client_pkt(kind: u8, seq: u32, counter: u32) -> Vec<u8> {
@@ -116,6 +133,17 @@ pub fn check(case: &Case, obs: &mut Obs, ctx: &Ctx) -> CheckResult {
     // "starting from any window vector": the statement quantifies over it
     for i in 0..n {
         sh.st.conns[i].window = case.windows[i] as i32;
+    }
+    for (i, k) in case.pre_load.iter().enumerate().take(n) {
+        let now = sh.now();
+        for j in 0..*k as u32 {
+            let seq = 0x2000_0000 + i as u32 * 0x1_0000 + j;
+            sh.st.conns[i].register_packet(seq as i32, now);
+            model.links[i].held.insert(seq);
+        }
+        if model.score(i) == 0 {
+            obs.class("link-starts-with-quotient-0");
+        }
     }
     let mut owners = Owners::default();
     let mut counter: u32 = 5000;
